@@ -1,4 +1,6 @@
 import Logrange.Proofs.RdMergeNJournal
+import Logrange.Proofs.RdFilterPaging
+import Logrange.Proofs.RdRngWin
 /-!
 # C03 — paging over a merged cursor of ANY number of partitions; the ranged iterator as a lawful mixer source
 
@@ -87,6 +89,105 @@ theorem paging_n_partitions_ranged (srcs : List RSrc) (hne : srcs ≠ []) (hg : 
   · intro s hs
     have := It.view_sublist_leaf t s (by rw [hl]; exact hs)
     rw [hv s hs] at this; exact this
+
+/-- **`fiterator` is a transformer of lawful sources**: over any lawful iterator (a mixer tree, a single partition) the
+`fiterator` (`Get` skip loop, `Next`, `Release`, `SetBackward` dropping its cache) is again a lawful source whose stream is the
+FILTER of the stream below (`Logrange.MergeN.FSrc.instLawfulFSrc`, `Proofs/RdFilterSrc.lean`). `Next` needs a preceding `Get`. -/
+theorem fiterator_lawful {σ : Type} [Source σ] [LawfulSource σ] (f : FSrc σ) (h : wf f) :
+    (Source.get f).2 = ((view f.inner).filter f.p).head? ∧ view (Source.get f).1 = (view f.inner).filter f.p ∧
+    view (Source.next (Source.get f).1) = ((view f.inner).filter f.p).tail ∧
+    view (Source.release f) = (view f.inner).filter f.p ∧ wf (Source.get f).1 ∧ ∀ bk, wf (Source.setBackward bk f) := by
+  obtain ⟨g1, g2, g3, _, g5⟩ := LawfulSource.get_spec f h
+  obtain ⟨n1, _, _⟩ := LawfulSource.next_spec _ g3 g5
+  obtain ⟨r1, _, _, _⟩ := LawfulSource.release_spec f h
+  exact ⟨g1, g2, by rw [n1, g2]; rfl, r1, g3, fun bk => (LawfulSource.setBackward_spec bk f h).1⟩
+
+/-- **paging_n_partitions with WHERE** (un-ranged): the cursor is the `fiterator` (filter `p` on events) above the mixer tree
+over any number of partitions; per page the held cursor continues or a new `fiterator` over a new tree over fresh iterators
+at the exported positions is built. The concatenated pages are the first Σ limits events of the filtered merged stream,
+which is a permutation of all stored events that pass the filter. -/
+theorem paging_n_partitions_filtered (srcs : List JSrc) (hne : srcs ≠ []) (hg : ∀ s ∈ srcs, GoodJournal s.j ∧ s.it = {})
+    (p : Ev → Bool) (steps : List (Bool × Nat)) :
+    ∃ t, build srcs = some t ∧
+      (pagesS (refreshF refreshJ) (⟨t, p, false, none⟩ : FSrc (It JSrc)) steps).flatten =
+        (t.view.filter p).take (steps.map (·.2)).sum ∧
+      (t.view.filter p).Perm ((srcs.flatMap JSrc.all).filter p) := by
+  obtain ⟨t, ht, hl⟩ := build_leaves srcs hne
+  have hv : ∀ s ∈ srcs, view s = s.all := by
+    intro s hs
+    obtain ⟨⟨_, hp, _⟩, hi⟩ := hg s hs
+    obtain ⟨tags, j, it⟩ := s
+    simp only at hi hp; subst hi
+    exact JSrc.view_head tags j hp
+  have hP : ∀ s ∈ srcs, PJ s ∧ wf s ∧ dir s = false := by
+    intro s hs
+    obtain ⟨⟨h1, h2, h3⟩, hi⟩ := hg s hs
+    have hw : JSrc.wf s := ⟨h1, h2, h3, by rw [hi]; simp [Rd.WF]⟩
+    exact ⟨⟨hw, by rw [hi], by rw [hi]; simp [Synced]⟩, hw, by show s.it.bkwd = false; rw [hi]⟩
+  have hinv := built_inv PJ refreshJ pj_get pj_next pj_release pj_refresh srcs t ht hP
+  refine ⟨t, ht, pagesF_spec PJ refreshJ pj_get pj_next pj_release pj_refresh steps _
+    ⟨hinv, hinv.1, by intro h; cases h⟩, ?_⟩
+  have := It.view_perm_leaves t
+  rw [hl, JSrc.flatMap_congr' hv] at this
+  exact this.filter p
+
+/-- **paging_n_partitions with RANGE (and WHERE)**: ranged iterators as leaves, the `fiterator` with the range re-check above
+the tree. Under window soundness for the filter (`WinSoundF`: every stored record whose event passes `p` lies inside its
+chunk's window — for `p` = "timestamp in the range, and WHERE" this is `WinSound`, C02's subject) the filtered merged stream
+is a permutation of all STORED events that pass the filter. -/
+theorem paging_n_partitions_ranged_filtered (srcs : List RSrc) (hne : srcs ≠ [])
+    (hg : ∀ s ∈ srcs, GoodJournal s.j ∧ s.it = {}) (p : Ev → Bool)
+    (hw : ∀ s ∈ srcs, WinSoundF s.j (fun r => p (s.ev r))) (steps : List (Bool × Nat)) :
+    ∃ t, build srcs = some t ∧
+      (pagesS (refreshF refreshR) (⟨t, p, false, none⟩ : FSrc (It RSrc)) steps).flatten =
+        (t.view.filter p).take (steps.map (·.2)).sum ∧
+      (t.view.filter p).Perm ((srcs.flatMap (fun s => (flat s.j).map s.ev)).filter p) := by
+  obtain ⟨t, ht, hl⟩ := build_leaves srcs hne
+  have hv : ∀ s ∈ srcs, view s = s.all := by
+    intro s hs
+    obtain ⟨_, hi⟩ := hg s hs
+    obtain ⟨tags, j, it⟩ := s
+    simp only at hi; subst hi
+    exact RSrc.view_head tags j
+  have hP : ∀ s ∈ srcs, PR s ∧ wf s ∧ dir s = false := by
+    intro s hs
+    obtain ⟨⟨h1, h2, h3⟩, hi⟩ := hg s hs
+    have hw' : RSrc.wf s := ⟨h1, h2, h3, by rw [hi]; simp [RWF, RStats]⟩
+    exact ⟨⟨hw', by rw [hi], by rw [hi]; simp [RSynced]⟩, hw', by show s.it.bkwd = false; rw [hi]⟩
+  have hinv := built_inv PR refreshR pr_get pr_next pr_release pr_refresh srcs t ht hP
+  refine ⟨t, ht, pagesF_spec PR refreshR pr_get pr_next pr_release pr_refresh steps _
+    ⟨hinv, hinv.1, by intro h; cases h⟩, ?_⟩
+  have hperm := It.view_perm_leaves t
+  rw [hl, JSrc.flatMap_congr' hv] at hperm
+  have h1 := hperm.filter p
+  have h2 : (srcs.flatMap RSrc.all).filter p = (srcs.flatMap (fun s => (flat s.j).map s.ev)).filter p := by
+    clear hperm h1 hinv hP hv hl ht hne hg
+    induction srcs with
+    | nil => rfl
+    | cons s rest ih =>
+      simp only [List.flatMap_cons, List.filter_append]
+      rw [ih (fun x hx => hw x (List.mem_cons_of_mem _ hx))]
+      congr 1
+      have := rwn_filter_wflat (hw s (List.mem_cons_self ..))
+      simp only [RSrc.all, List.filter_map]
+      rw [show (p ∘ s.ev) = (fun r => p (s.ev r)) from rfl, this]
+  rw [h2] at h1; exact h1
+
+/-- **event content across pagings**: every event of every page is a stored record of one of the partitions, delivered
+unchanged — its timestamp, its payload identity (`lbl`: message and fields are one opaque payload in the model) and the tag
+line of the partition it is stored in. (One partition: `paging`/`paging_ranged` are equalities of lists of whole records.) -/
+theorem paged_event_content (srcs : List JSrc) (hne : srcs ≠ []) (hg : ∀ s ∈ srcs, GoodJournal s.j ∧ s.it = {})
+    (steps : List (Bool × Nat)) (t : It JSrc) (ht : build srcs = some t) :
+    ∀ e ∈ (pagesN refreshJ t steps).flatten, ∃ s ∈ srcs, ∃ r ∈ flat s.j, e = ⟨r.ts, r.lbl, s.tags⟩ := by
+  obtain ⟨t', ht', hpg, hperm, _⟩ := paging_n_partitions srcs hne hg steps
+  rw [ht] at ht'; cases ht'
+  intro e he
+  rw [hpg] at he
+  have h1 : e ∈ srcs.flatMap JSrc.all := hperm.mem_iff.mp (List.mem_of_mem_take he)
+  obtain ⟨s, hs, hes⟩ := List.mem_flatMap.mp h1
+  simp only [JSrc.all, List.mem_map] at hes
+  obtain ⟨r, hr, rfl⟩ := hes
+  exact ⟨s, hs, r, hr, rfl⟩
 
 -- non-vacuity: three partitions (a nested mixer), one with two chunks of which one is empty, ties across partitions
 example : ∃ srcs : List JSrc, srcs.length = 3 ∧ (∀ s ∈ srcs, GoodJournal s.j ∧ s.it = {}) ∧ srcs.flatMap JSrc.all ≠ [] :=
